@@ -8,6 +8,7 @@ use crate::subject::{lists::*, map::*, merkle::*, mvreg::*, orswot::*, simple::*
 
 fn add<S: Subject>(jobs: &mut Vec<Box<dyn JobT>>, variant: &str, disc: Disc, w: Weights, closed_edits: bool, ex: &[Class], q: u64, t: u64, floor: f64) {
     let pc = PlanCfg::new(w).steps(6, 30).observers(0, 2);
+    let pc = pc.long_share(S::LONG);
     let mut ctx = Ctx::new(disc).ex(ex).newest();
     if closed_edits {
         ctx = ctx.closed_edits();
@@ -188,16 +189,23 @@ pub fn property() -> Property {
     let mixed = || Weights::mixed();
     // Orswot: strict in both sub-domains
     add::<SOrswot>(&mut jobs, "A: edits at causally closed replicas, ops", Disc::Fifo, ops(), true, &[], 12000, 200_000, 0.02);
+    add::<SOrswotBig>(&mut jobs, "A: edits at causally closed replicas, ops", Disc::Fifo, ops(), true, &[], 3000, 50000, 0.01);
     add::<SOrswot>(&mut jobs, "B: edits anywhere, ops", Disc::Fifo, ops(), false, &[], 12000, 200_000, 0.02);
+    add::<SOrswotBig>(&mut jobs, "B: edits anywhere, ops", Disc::Fifo, ops(), false, &[], 3000, 50000, 0.01);
     add::<SOrswot>(&mut jobs, "B: edits anywhere, ops+merges", Disc::Fifo, mixed(), false, &[], 12000, 200_000, 0.02);
+    add::<SOrswotBig>(&mut jobs, "B: edits anywhere, ops+merges", Disc::Fifo, mixed(), false, &[], 3000, 50000, 0.01);
     // MVReg: no ordering assumption at all
     add::<SMVReg>(&mut jobs, "ops", Disc::Any, ops(), false, &[], 12000, 200_000, 0.02);
     add::<SMVReg>(&mut jobs, "ops+merges", Disc::Any, mixed(), false, &[], 8000, 100_000, 0.02);
     // Map
     add::<MapOrswot>(&mut jobs, "A: edits at causally closed replicas, ops", Disc::Fifo, ops(), true, &[Class::T3], 12000, 200_000, 0.02);
+    add::<MapOrswotBig>(&mut jobs, "A: edits at causally closed replicas, ops", Disc::Fifo, ops(), true, &[Class::T3], 3000, 50000, 0.01);
     add::<MapOrswot>(&mut jobs, "B: edits anywhere, ops+merges", Disc::Fifo, mixed(), false, &[Class::T1, Class::T3], 12000, 200_000, 0.02);
+    add::<MapOrswotBig>(&mut jobs, "B: edits anywhere, ops+merges", Disc::Fifo, mixed(), false, &[Class::T1, Class::T3], 3000, 50000, 0.01);
     add::<MapMVReg>(&mut jobs, "A: edits at causally closed replicas, ops", Disc::Fifo, ops(), true, &[Class::T2, Class::T2b, Class::T3], 12000, 200_000, 0.02);
+    add::<MapMVRegBig>(&mut jobs, "A: edits at causally closed replicas, ops", Disc::Fifo, ops(), true, &[Class::T2, Class::T2b, Class::T3], 3000, 50000, 0.01);
     add::<MapMVReg>(&mut jobs, "B: edits anywhere, ops+merges", Disc::Fifo, mixed(), false, &[Class::T1, Class::T2, Class::T2b, Class::T3, Class::T5, Class::T6], 12000, 200_000, 0.02);
+    add::<MapMVRegBig>(&mut jobs, "B: edits anywhere, ops+merges", Disc::Fifo, mixed(), false, &[Class::T1, Class::T2, Class::T2b, Class::T3, Class::T5, Class::T6], 3000, 50000, 0.01);
     // order-free types: any order at all
     add::<SGCounter>(&mut jobs, "ops+merges", Disc::Any, mixed(), false, &[], 4000, 40_000, 0.02);
     add::<SPNCounter>(&mut jobs, "ops+merges", Disc::Any, mixed(), false, &[], 4000, 40_000, 0.02);
